@@ -255,6 +255,33 @@ impl Callbacks for Cb {
             }
         }
 
+        // scalar statics
+        for ldid in tcx.hir_body_owners() {
+            let did = ldid.to_def_id();
+            if let DefKind::Static { .. } = tcx.def_kind(did) {
+                let t = tcx.type_of(did).instantiate_identity().skip_norm_wip();
+                if !(t.is_integral() || t.is_bool()) {
+                    continue;
+                }
+                if let Ok(alloc) = tcx.eval_static_initializer(did) {
+                    let a = alloc.inner();
+                    let n = a.len();
+                    if n <= 16 {
+                        let bytes = a.inspect_with_uninit_and_ptr_outside_interpreter(0..n);
+                        let mut v: u128 = 0;
+                        for (i, b) in bytes.iter().enumerate() {
+                            v |= (*b as u128) << (8 * i);
+                        }
+                        let mut val = v as i128;
+                        if t.is_signed() && n < 16 && (v >> (8 * n - 1)) & 1 == 1 {
+                            val = (v as i128) - (1i128 << (8 * n));
+                        }
+                        consts.push((def_path(tcx, did), J::Num(val)));
+                    }
+                }
+            }
+        }
+
         let doc = J::Obj(vec![
             ("crate".into(), J::Str(crate_name.clone())),
             ("crate_types".into(), J::Arr(crate_types.iter().map(|s| J::Str(s.clone())).collect())),
